@@ -60,6 +60,12 @@ def probe_for(k, name, cfg):
     # whole grid years for a window strictly inside the run
     whole = [y for y in yv if abs(y - round(y)) < 1e-9]
     win = dict(start_year=int(whole[1]), end_year=int(whole[min(3, len(whole) - 2)])) if sched_ok and len(whole) >= 4 else None
+    # every second scheduled probe configures a coverage VECTOR over `years` (interpolated, annual) instead of a scalar over a window
+    def sched(k, scalar, annual):
+        ny = win['end_year'] - win['start_year'] + 1
+        if k % 2 == 0 and ny >= 2 and dt <= 1 and not (0.5 < dt < 1):
+            return dict(years=list(range(win['start_year'], win['end_year'] + 1)), prob=[[0.2, 0.6, 0.4][(k + j) % 3] for j in range(ny)], annual_prob=True)
+        return dict(win, prob=[scalar], annual_prob=annual)
     kinds = ['treat', 'screen', 'vx']
     kind = kinds[k % 3]
     if kind == 'vx' and not ('sir' in names and win): kind = 'treat'
@@ -70,16 +76,19 @@ def probe_for(k, name, cfg):
         return None, 'no disease with infected/susceptible states and no year grid for a window'
     if kind == 'treat':
         post = 'recovered' if (d0, 'recovered') in states and k % 2 else 'susceptible'
-        case.update(kind='treat', delivery='none', capacity=[2, 3, 5][k % 3], treat_prob=[1.0, 0.8][k % 2],
-                    elig=['infected', 't_alt_infected', 'uids_infected', 't_enrol_early', 'adults'][k % 5],
-                    tx=dict(rows=[(d0, 'infected', [1.0, 0.7][(k // 2) % 2], post)]))
+        rows = [(d0, 'infected', [1.0, 0.7][(k // 2) % 2], post)]
+        # a second disease sharing the state name `infected` gets its own, different row (one product for two diseases)
+        if len(names) > 1: rows = [(d0, 'infected', 1.0, post)]      # (deterministic rows, so that a mixed-up row shows on every treated agent)
+        rows += [(d, 'infected', 0.0, 'susceptible') for d in names[1:2] if (d, 'infected') in states and (d, 'susceptible') in states]
+        case.update(kind='treat', delivery='none', capacity=[2, 3, 5, 0, 1][(k // 3) % 5], treat_prob=[1.0, 0.8][k % 2],
+                    elig=['infected', 't_alt_infected', 'uids_infected', 't_enrol_early', 'adults'][k % 5], tx=dict(rows=rows))
     elif kind == 'screen':
         case.update(kind='screen', delivery='routine', elig=['female', 't_rotating', 'uids_infected', 'none'][k % 4],
                     dx=dict(hierarchy=['positive', 'negative'], rows=[(d0, 'susceptible', [0.0, 1.0]), (d0, 'infected', [1.0, 0.0])]),
-                    sched=dict(win, prob=[[0.8, 0.3][k % 2]], annual_prob=bool(k % 2)))
+                    sched=sched(k // 3, [0.8, 0.3][k % 2], bool(k % 2)))
     elif kind == 'vx':
         case.update(kind='vx', delivery='routine', elig=['none', 'susceptible', 't_alt_steps', 'uids_young'][k % 4], vaccine=dict(kind='leaky', efficacy=1.0),
-                    sched=dict(win, prob=[[0.5, 0.3][k % 2]], annual_prob=bool(k % 2)))
+                    sched=sched(k // 3, [0.5, 0.3][k % 2], bool(k % 2)))
     else:
         # no infectious disease (killer-only, NCD): the inert ss.Vx product — recipients / records / window / coverage still apply
         case.update(kind='vx', delivery='routine', elig=['female', 'adults', 't_alt_steps'][k % 3], vaccine=dict(kind='inert', efficacy=0.0),
